@@ -24,7 +24,9 @@ if sys.version_info < (3, 11):  # pragma: no cover
     from exceptiongroup import BaseExceptionGroup
 
 NTYPES = 6
-TYPES = [type(f"T{i}", (), {"__init__": lambda self, v=None: setattr(self, "v", v)}) for i in range(NTYPES)]
+# resource values: every third one is falsy (resources are arbitrary objects: empty containers, 0, …)
+TYPES = [type(f"T{i}", (), {"__init__": lambda self, v=None: setattr(self, "v", v),
+                            "__bool__": lambda self: (self.v or 0) % 3 != 0}) for i in range(NTYPES)]
 TYPE_ID = {t: i for i, t in enumerate(TYPES)}
 EXN = [type(f"Exn{i}", (Exception,), {}) for i in range(4)]
 BASE = [type(f"Base{i}", (BaseException,), {}) for i in range(3)]
@@ -39,6 +41,19 @@ class FactoryError(Exception):
 class GenObj:
     def __init__(self, c: int, fid: int, n: int) -> None:
         self.key = (c, fid, n)
+
+    def __bool__(self) -> bool:      # some factory products are falsy too
+        return self.key[1] % 3 != 0
+
+
+class Awaitable:
+    """A non-coroutine awaitable (what e.g. `agen.aclose()` or a Future is to a teardown callback)."""
+
+    def __init__(self, coro: Any) -> None:
+        self.coro = coro
+
+    def __await__(self) -> Any:
+        return self.coro.__await__()
 
 
 def exc_name(e: BaseException | None) -> str:
@@ -175,6 +190,9 @@ class Kernel:
                 await checkpoint()
                 run(args)
 
+            if spec["id"] % 2:
+                # a plain function returning a non-coroutine awaitable: must be awaited just the same
+                return lambda *args: Awaitable(acb(*args))
             return acb
 
         def cb(*args: Any) -> None:
